@@ -111,3 +111,119 @@ Proof.
   destruct (Hall a Ha) as [[S|[S|S]]|Hok]; try contradiction.
   apply minbal_ok_acct_spec; auto.
 Qed.
+
+(* ------------------------------------------------------------------ histories *)
+(* one block of a history: its environment (round, level, special addresses), the reward
+   units handed to StartEvaluator, its groups and its end-of-block inputs *)
+Record blockdesc := mkBD {
+  bd_E : env; bd_ru : N; bd_gs : list (list txn * N);
+  bd_expired : list N; bd_absent : list N; bd_proposer : N; bd_payout : N
+}.
+
+(* the premises of block_conserves for block [d] evaluated on ledger [b] at level [prevlvl] *)
+Definition block_ok (P : params) (U : list N) (b : base) (prevlvl : N) (d : blockdesc) : Prop :=
+  let E := bd_E d in
+  e_P E = P /\ env_ok E /\ e_validate E = true /\ prevlvl < 2 ^ 64 /\ bd_ru d < 2 ^ 64 /\ bd_payout d < 2 ^ 64 /\
+  In (e_pool E) U /\ In (e_feesink E) U /\ (bd_proposer d <> 0 -> In (bd_proposer d) U) /\
+  (forall a, In a (bd_expired d) -> In a U) /\ (forall a, In a (bd_absent d) -> In a U) /\
+  groups_ok E U (bd_gs d) /\
+  bd_ru d = units_of P U (base_cow b) /\
+  (forall ev0 ev1, start_block E b prevlvl (bd_ru d) = Ok ev0 -> eval_groups E ev0 (bd_gs d) = Ok ev1 ->
+                   forall a, In a (bd_expired d) -> a_status (lookup (ev_cow ev1) a) <> NotPart).
+
+(* the ledger stores what the evaluator computed (that it does is C08 / C09) *)
+Definition ledger_after (ev : evalst) (b' : base) : Prop := forall a, base_lookup b' a = lookup (ev_cow ev) a.
+
+(* a history: blocks evaluated one after the other, each on the ledger the previous one left *)
+Inductive run (P : params) (U : list N) : base -> N -> list blockdesc -> base -> N -> Prop :=
+| run_nil : forall b l, run P U b l [] b l
+| run_cons : forall b l d ev b' ds b'' l'',
+    block_ok P U b l d ->
+    eval_block (bd_E d) b l (bd_ru d) (bd_gs d) (bd_expired d) (bd_absent d) (bd_proposer d) (bd_payout d) = Ok ev ->
+    ledger_after ev b' ->
+    run P U b' (e_lvl (bd_E d)) ds b'' l'' ->
+    run P U b l (d :: ds) b'' l''.
+
+Theorem history_conserves P U b l ds b' l' :
+  NoDup U -> run P U b l ds b' l' -> wf_cow l (base_cow b) ->
+  tot_at P l' U (base_cow b') = tot_at P l U (base_cow b) /\ wf_cow l' (base_cow b').
+Proof.
+  intros HU Hrun. induction Hrun as [b l|b l d ev b1 ds b2 l2 Hok Hev Hled Hrun IH]; intros Hw; [auto|].
+  destruct Hok as (HP & Henv & Hv & Hl & Hru & Hpay & Hpool & Hsink & Hprop & Hexp & Habs & Hgs & Hrueq & Hpart).
+  subst P.
+  destruct (block_conserves_thm (bd_E d) b l (bd_ru d) (bd_gs d) (bd_expired d) (bd_absent d) (bd_proposer d)
+              (bd_payout d) U ev Henv Hv Hl Hru Hpay HU Hpool Hsink Hprop Hexp Habs Hgs Hw Hrueq Hpart Hev) as [T W].
+  assert (Hw1 : wf_cow (e_lvl (bd_E d)) (base_cow b1)).
+  { intro a. change (lookup (base_cow b1) a) with (base_lookup b1 a). rewrite Hled. apply W. }
+  destruct (IH Hw1) as [T2 W2]. split; [|exact W2].
+  rewrite T2, <- T. unfold tot_at. apply sumf_ext. intros a _.
+  change (lookup (base_cow b1) a) with (base_lookup b1 a). now rewrite Hled.
+Qed.
+
+(* ------------------------------------------------------------------ error exits of Move *)
+Lemma bind_err {A B} (m : M A) (k : A -> M B) c c' e :
+  bind m k c = (c', Err e) ->
+  m c = (c', Err e) \/ exists c1 a, m c = (c1, Ok a) /\ k a c1 = (c', Err e).
+Proof. unfold bind. destruct (m c) as [c1 [a|e1]]; intros H; [right; eauto | left; inversion H; reflexivity]. Qed.
+
+(* one side of Move fails before it writes: the cow is untouched *)
+Lemma move_side_err E d a amt r c c' e : move_side E d a amt r c = (c', Err e) -> c' = c.
+Proof.
+  unfold move_side. intros H.
+  apply bind_err in H. destruct H as [H|(c1 & bal & H1 & H)]; [unfold m_lookup in H; discriminate|].
+  unfold m_lookup in H1. inversion H1. subst c1 bal. clear H1.
+  apply bind_err in H. destruct H as [H|(c1 & new & H1 & H)]; [unfold lift in H; now inversion H|].
+  unfold lift in H1. inversion H1. subst c1. clear H1.
+  apply bind_err in H. destruct H as [H|(c1 & r' & H1 & H)]; [unfold lift in H; now inversion H|].
+  unfold lift in H1. inversion H1. subst c1. clear H1.
+  apply bind_err in H. destruct H as [H|(c1 & u & H1 & H)]; [|cbv beta in H; unfold ret in H; discriminate].
+  unfold when in H. destruct (must_write (e_P E) amt (lookup c a)); [|cbv beta in H; unfold ret in H; discriminate].
+  destruct (if d then osub 64 (a_algos new) amt else oadd 64 (a_algos new) amt) as [v o].
+  destruct o; [unfold fail in H; now inversion H | unfold m_put in H; discriminate].
+Qed.
+
+Ltac code_ne He := let X := fresh "X" in inversion He; subst; intro X; vm_compute in X; discriminate X.
+
+Lemma move_side_credit_code E a amt r c c' e : move_side E false a amt r c = (c', Err e) -> e <> E_OVERSPEND.
+Proof.
+  unfold move_side. intros H.
+  apply bind_err in H. destruct H as [H|(c1 & bal & H1 & H)]; [unfold m_lookup in H; discriminate|].
+  unfold m_lookup in H1. inversion H1. subst c1 bal. clear H1.
+  apply bind_err in H. destruct H as [H|(c1 & new & H1 & H)].
+  { unfold lift in H. injection H as Hc He. clear Hc. set (x := lookup c a) in *. unfold with_rewards in He.
+    destruct (a_status x); try discriminate;
+      (destruct (p_unit (e_P E) =? 0); [code_ne He|]);
+      cbn zeta in He;
+      destruct (osub 64 (e_lvl E) (a_rbase x)) as [dl o1];
+      destruct (omul 64 (reward_units (e_P E) (a_algos x)) dl) as [rw o2];
+      destruct (oadd 64 (a_algos x) rw) as [out o3];
+      destruct (o1 || o2 || o3); try discriminate; code_ne He. }
+  unfold lift in H1. inversion H1. subst c1. clear H1.
+  apply bind_err in H. destruct H as [H|(c1 & r' & H1 & H)].
+  { unfold lift in H. injection H as Hc He. clear Hc. set (x := lookup c a) in *. unfold track in He. destruct r; [|discriminate].
+    destruct (osub 64 (a_algos new) (a_algos x)) as [dd o1]. destruct (oadd 64 n dd) as [ss o2].
+    destruct (o1 || o2); try discriminate. code_ne He. }
+  unfold lift in H1. inversion H1. subst c1. clear H1.
+  apply bind_err in H. destruct H as [H|(c1 & u & H1 & H)]; [|cbv beta in H; unfold ret in H; discriminate].
+  unfold when in H. destruct (must_write (e_P E) amt (lookup c a)); [|unfold ret in H; discriminate].
+  destruct (oadd 64 (a_algos new) amt) as [v o].
+  destruct o; [unfold fail in H; code_ne H | unfold m_put in H; discriminate].
+Qed.
+
+(* both error exits of Move: an OverspendError (or any other failure of the debit side)
+   leaves the cow exactly as it was; a failure of the credit side ("balance overflow") leaves
+   the debit written -- which is why Move's caller must discard the cow (group_atomic) *)
+Theorem move_error_exits E from to amt fr tr c c' e :
+  move E from to amt fr tr c = (c', Err e) ->
+  c' = c \/
+  (e <> E_OVERSPEND /\ exists r1, move_side E true from amt fr c = (c', Ok r1)).
+Proof.
+  unfold move. intros H.
+  apply bind_err in H. destruct H as [H|(c1 & r1 & H1 & H)]; [left; eapply move_side_err; eauto|].
+  apply bind_err in H. destruct H as [H|(c2 & r2 & H2 & H)]; [|cbv beta in H; unfold ret in H; discriminate].
+  right. pose proof (move_side_err _ _ _ _ _ _ _ _ H) as ->. split; [eapply move_side_credit_code; eauto|eauto].
+Qed.
+
+Corollary move_overspend_unchanged E from to amt fr tr c c' :
+  move E from to amt fr tr c = (c', Err E_OVERSPEND) -> c' = c.
+Proof. intros H. destruct (move_error_exits _ _ _ _ _ _ _ _ _ H) as [->|[Hne _]]; [reflexivity | contradiction]. Qed.
